@@ -779,6 +779,20 @@ def _pull_item_component(t, pulls_sites, comp):
     return None
 
 
+def _some_edges(root, opt_term):
+    """CFG edges taken exactly when the option-valued term is Some: the Some arm of `match x` / `if let Some(..) = x`, the
+    Continue arm of `x?`"""
+    out = []
+    for sbi, stj, d in switches_on(root, lambda d: d[0] == "discr"):
+        x = d[1]
+        if core.same(x, opt_term):
+            out.append((sbi, opt_arms(stj)[0]))
+        elif x[0] == "call" and isinstance(x[1], str) and core.callee_base(x[1]) == "core::ops::Try::branch" and x[2] and core.same(x[2][0], opt_term):
+            cont = [tb for val, tb in stj["targets"] if val == 0]
+            out.append((sbi, cont[0] if cont else stj["otherwise"]))
+    return out
+
+
 def rule_iter_standard(ctx, roles, kinds=("find", "overlapping", "nosuffix"), rules=None):
     lib = ctx.lib
     for v in roles.variants():
@@ -1224,6 +1238,16 @@ def _iter_leftmost_one(ctx, roles, v, info, rules):
             if inner and inner[0] == "payload" and inner[1][0] == "call" and inner[1][3] == osite:
                 cand_updates.append(bi)
                 cand_local = s["lhs"]["local"]
+                # `cand = Some(x)` is lowered to `tmp = Some(x); cand = move tmp`: the candidate is the local the temporary is moved to
+                for _ in range(3):
+                    if cand_local in b.local_names:
+                        break
+                    fw = [s2["lhs"]["local"] for _b2, _s2, s2 in b.stmts() if s2["k"] == "assign" and not s2["lhs"]["proj"] and
+                          s2["rv"]["k"] == "use" and s2["rv"]["op"]["k"] in ("move", "copy") and not s2["rv"]["op"]["place"]["proj"] and
+                          s2["rv"]["op"]["place"]["local"] == cand_local]
+                    if len(fw) != 1:
+                        break
+                    cand_local = fw[0]
     if want("ITER-LM"):
         ctx.check(len(cand_updates) == 1 and cand_local is not None, "ITER-LM", b, "candidate-update:" + tag, b.loc(obi),
                   "exactly one site must record the new state's output as the candidate; found %d" % len(cand_updates))
@@ -1306,15 +1330,13 @@ def _iter_leftmost_one(ctx, roles, v, info, rules):
         if vw is root and b.edge_guards((sbi, some_arm), bi):
             loop_reports.append((bi, si))
             if want("ITER-LM"):
-                csw = switches_on(root, lambda d: d[0] == "discr" and core.same(d[1], cand))
-                g = any(b.edge_guards((cbi, opt_arms(ct)[0]), bi) for cbi, ct, _ in csw)
+                g = any(b.edge_guards(e_, bi) for e_ in _some_edges(root, cand))
                 ctx.check(b.edge_guards((rbi, is_root_arm), bi) and g, "ITER-LM", b, "emit-on-root:" + tag, loc,
                           "inside the loop a match is emitted only when the automaton fell back to ROOT and a candidate exists")
         elif vw is root:
             end_reports.append((bi, si))
             if want("ITER-LM"):
-                csw = switches_on(root, lambda d: d[0] == "discr" and core.same(d[1], cand))
-                g = any(b.edge_guards((cbi, opt_arms(ct)[0]), bi) for cbi, ct, _ in csw)
+                g = any(b.edge_guards(e_, bi) for e_ in _some_edges(root, cand))
                 ctx.check(b.edge_guards((sbi, none_arm), bi) and g, "ITER-LM", b, "emit-at-end-guard:" + tag, loc,
                           "after the loop the pending candidate is emitted only if there is one")
     if want("ITER-LM"):
